@@ -396,7 +396,7 @@ pub fn run(run: &Run) {
         run,
         Search { check: "termination-value", cases: run.tier.pick(3000, 100000), workers: 8, max_shrink_iters: 60 },
         case_strategy,
-        |c| judge(|| exec(c), false, "C04:hang"),
+        |c| judge(|| exec(c), true, "C04:hang"),
         |c| serde_json::to_value(c).unwrap(),
     );
     for l in ["style:capsule", "style:capsule-long-reason", "style:fin", "style:quic-close", "style:wt-close", "style:reset", "style:fin-inside-data", "style:fin-inside-frame", "style:fin-after-unknown-frame-header", "style:malformed-capsule", "burst-before-end"] {
@@ -410,7 +410,7 @@ pub fn replay(run: &Run, doc: &Value) -> bool {
     };
     run.eval("termination-value", true, 1);
     for _ in 0..3 {
-        if let Outcome::Fail { signature, message } = judge(|| exec(&case), false, "C04:hang") {
+        if let Outcome::Fail { signature, message } = judge(|| exec(&case), true, "C04:hang") {
             run.fail("termination-value", &signature, &message, doc["case"].clone());
             break;
         }
